@@ -1,6 +1,7 @@
 import LyModel.Props.C06
 import LyModel.Props.C06UO
 import LyModel.Props.C06UOList
+import LyModel.Props.C06UONb
 #print axioms LyModel.Props.C06.userord_apply_diff
 #print axioms LyModel.Props.C06.diff_self_empty
 #print axioms LyModel.Props.C06.apply_diff_partial
@@ -15,3 +16,7 @@ import LyModel.Props.C06UOList
 #print axioms LyModel.Props.C06UO.apply_userord_flat_kl_sim
 #print axioms LyModel.Props.C06UO.apply_diff_userord_flat_kl
 #print axioms LyModel.Props.C06UO.apply_diff_userord_flat_kl_dec
+#print axioms LyModel.Props.C06UO.insertUO_among_neighbours
+#print axioms LyModel.Props.C06UO.diff_userord_ll_neighbours_sim
+#print axioms LyModel.Props.C06UO.apply_diff_userord_ll_neighbours
+#print axioms LyModel.Props.C06UO.apply_diff_userord_ll_neighbours_dec
